@@ -287,7 +287,7 @@ impl Report {
         for f in other.found {
             if !self.found.iter().any(|x| x.sig == f.sig) {
                 self.found.push(f);
-            } else if !f.replay.contains("/regress/") {
+            } else if !f.replay.contains("/regress/") && !self.found.iter().any(|x| x.replay == f.replay) {
                 // Another shard already reported this signature: keep one replay file.
                 let _ = std::fs::remove_file(&f.replay);
             }
